@@ -3,7 +3,7 @@
    Model: C14_Model.v (ContentSequence of sr/value_types.py; state = list, name
    index `lut`, is_root, is_sr).  [run s ops] = state after the history [ops]. *)
 From Coq Require Import String ZArith List Bool Permutation.
-From HD Require Import Base.Val Base.PySlice C14_Model C14_Proofs C14_Proofs_Ext C14_Proofs_Slice C14_Proofs_Refine C14_Proofs_SliceNth.
+From HD Require Import Base.Val Base.PySlice C14_Model C14_Proofs C14_Proofs_Ext C14_Proofs_Slice C14_Proofs_Refine C14_Proofs_SliceNth C14_Proofs_Multi.
 Import ListNotations.
 Open Scope Z_scope.
 
@@ -501,3 +501,100 @@ Theorem C14_slice_range_in_bounds : forall start stop stp len f l s k, stp <> 0 
   slice_indices start stop stp len = (f, l, s) -> 0 <= k < range_len f l s -> 0 <= f + k * s < len.
 Proof. exact slice_range_in_bounds. Qed.
 Print Assumptions C14_slice_range_in_bounds.
+
+(* ======================= families: sequences constructed FROM other sequences =======================
+   [mrun [s0] ops]: the family grown from one constructed sequence by any history of (a) any operation on any member
+   and (b) derivations of a new member from any member - ContentSequence(seq, is_root, is_sr) (= what
+   `item.ContentSequence = seq` does, with the default flags), copy.deepcopy(seq), seq.find(name), seq.get_nodes().
+   For EVERY member, at every time, the property sentence holds: its index is its own filtered list, find returns
+   exactly its items with that name, index / in / count agree with its list, get_nodes is its filtered list, its
+   items obey its relationship-type rule. *)
+Theorem C14_family_all : forall c root sr s0 ops, construct c root sr = Ok s0 ->
+  Forall (fun t =>
+    (forall n, Permutation (lut t n) (filter (has n) (items t))) /\
+    (forall n, exists r, find t n = Ok r /\ Permutation r (filter (has n) (items t)) /\
+       forall x, count_occ item_eq_dec r x = if has n x then count_occ item_eq_dec (items t) x else 0%nat) /\
+    (forall x, (forall k, index t x = Ok k ->
+                  0 <= k < zlen (items t) /\ nth_error (items t) (Z.to_nat k) = Some x /\
+                  forall j, 0 <= j < k -> nth_error (items t) (Z.to_nat j) <> Some x) /\
+               ((exists k, index t x = Ok k) <-> is_item x = true /\ In x (items t)) /\
+               (is_item x = true -> (contains t x = Ok true <-> In x (items t)) /\
+                                    (contains t x = Ok false <-> ~ In x (items t))) /\
+               count t x = Z.of_nat (count_occ item_eq_dec (items t) x)) /\
+    get_nodes t = Ok (filter inode (items t)) /\
+    Forall (fun x => is_item x = true /\ (is_sr t = true -> (irel x =? 0) = is_root t)) (items t))
+  (mrun [s0] ops).
+Proof. exact family_summary. Qed.
+Print Assumptions C14_family_all.
+
+(* an operation on member i is that member's own single-sequence step; every other member - in particular the
+   sequence it was constructed from, and every sequence constructed from it - stays exactly as it was *)
+Theorem C14_family_frame_on : forall ss i o s, get_seq ss i = Some s ->
+  let ss' := fst (mstep ss (MOn i o)) in
+  length ss' = length ss /\
+  get_seq ss' i = Some (fst (xstep s o)) /\
+  snd (mstep ss (MOn i o)) = snd (xstep s o) /\
+  (forall j, j <> i -> get_seq ss' j = get_seq ss j).
+Proof. exact mstep_frame_on. Qed.
+Print Assumptions C14_family_frame_on.
+
+(* constructing a new member changes no existing member (whether the construction is accepted or refused) *)
+Theorem C14_family_frame_derive : forall ss src d,
+  let ss' := fst (mstep ss (MDerive src d)) in
+  (forall j s, get_seq ss j = Some s -> get_seq ss' j = Some s) /\
+  match get_seq ss src with
+  | None => ss' = ss /\ snd (mstep ss (MDerive src d)) = Err ENOSEQ
+  | Some s => match derive_from s d with
+              | Ok s' => ss' = ss ++ [s'] /\ snd (mstep ss (MDerive src d)) = Ok None
+              | Err e => ss' = ss /\ snd (mstep ss (MDerive src d)) = Err e
+              end
+  end.
+Proof. exact mstep_frame_derive. Qed.
+Print Assumptions C14_family_frame_derive.
+
+(* the new member: its own index built from its own list; the list is the source's list (constructor, deepcopy),
+   the source's items with that name (find, up to order) or the source's node items (get_nodes) *)
+Theorem C14_derive_spec : forall s d s',
+  (forall n, Permutation (lut s n) (filter (has n) (items s))) /\
+  Forall (fun x => init_check (is_root s) (is_sr s) x = None) (items s) /\ is_root s && negb (is_sr s) = false ->
+  derive_from s d = Ok s' ->
+  ((forall n, Permutation (lut s' n) (filter (has n) (items s'))) /\
+   Forall (fun x => init_check (is_root s') (is_sr s') x = None) (items s') /\ is_root s' && negb (is_sr s') = false) /\
+  lut s' = fold_left lut_add (items s') empty_lut /\
+  match d with
+  | DCtor root sr => items s' = items s /\ is_root s' = root /\ is_sr s' = sr
+  | DCopy => items s' = items s /\ is_root s' = is_root s /\ is_sr s' = is_sr s
+  | DFind n => Permutation (items s') (filter (has n) (items s)) /\ is_root s' = is_root s /\ is_sr s' = is_sr s
+  | DNodes => items s' = filter inode (items s) /\ is_root s' = is_root s /\ is_sr s' = is_sr s
+  end.
+Proof. exact derive_spec. Qed.
+Print Assumptions C14_derive_spec.
+
+(* ContentSequence(seq, root, sr) applies the rule of the NEW sequence to every item of seq: the entry path
+   `item.ContentSequence = seq` cannot smuggle in an item its own flags would refuse *)
+Theorem C14_derive_ctor_ok_iff : forall s root sr,
+  (exists s', derive_from s (DCtor root sr) = Ok s') <->
+  root && negb sr = false /\ Forall (fun x => init_check root sr x = None) (items s).
+Proof. exact derive_ctor_ok_iff. Qed.
+Print Assumptions C14_derive_ctor_ok_iff.
+
+(* non-vacuity: the copy gets a second item named 0, the source loses its first one - each member answers for
+   its own list; a container's children (DCtor false true) refuse a root item *)
+Example C14_family_example :
+  let a := Item true 0 1 false false 0 in let t := Item true 1 1 false true 0 in
+  let b := Item true 0 1 false false 1 in let c := Item true 0 2 false false 2 in
+  exists s0, init [a; t; b] false true = Ok s0 /\
+  (match mrun [s0] [MDerive 0 (DCtor false true); MOn 1 (Op (Append c)); MOn 0 (Op (DelInt 0)); MDerive 1 (DFind 0);
+                    MOn 2 (Pop 0); MDerive 0 DNodes; MOn 7 Reverse] with
+   | [src; cpy; fnd; nds] =>
+       items src = [t; b] /\ find src 0 = Ok [b] /\ contains src c = Ok false /\ contains src a = Ok false /\
+       items cpy = [a; t; b; c] /\ find cpy 0 = Ok [a; b; c] /\ index cpy a = Ok 0 /\
+       items fnd = [b; c] /\ items nds = [t]
+   | _ => False
+   end) /\
+  (exists r, init [Item true 0 0 true false 0] true true = Ok r /\ derive_from r (DCtor false true) = Err EATTR).
+Proof.
+  eexists. split; [reflexivity|]. split; [vm_compute; repeat split; reflexivity|].
+  eexists. split; [reflexivity|]. vm_compute. reflexivity.
+Qed.
+Print Assumptions C14_family_example.
